@@ -177,8 +177,10 @@ func init() {
 					res["published"] = ints(p[:])
 				}
 				parts := []any{info, ri}
-				for _, ra := range addrs {
-					parts = append(parts, ra, ra.TransportOptions)
+				for i, ra := range addrs {
+					if i < 8 || i >= len(addrs)-2 {
+						parts = append(parts, ra, ra.TransportOptions)
+					}
 				}
 				afterQueries(res, parts, ser, func() ([]byte, bool, bool) {
 					b, e := info.Bytes()
